@@ -402,6 +402,8 @@ def make_transform_post(points_form):
         if cf is None or not finite(x):
             return ctx.ood('wrapper', 'coef')
         bb, m = cf
+        if not (np.isfinite(float(bb)) and np.isfinite(float(m))):
+            return ctx.ood('wrapper', 'non-finite coefficients')
         label = 'lf.linear_transform_points' if points_form else 'lf.linear_transform'
         res = np.asarray(result)
         ref = ld(x) * LD(m) + LD(bb)
